@@ -112,6 +112,7 @@ def run(ctx):
     rngs = [random.Random(606), ctx.rng]
     nbase = (300, 150) if quick else (2000, 2000)
     sysbase = relgen.systematic_cases(2 if quick else 3, SAFE, seed=66, kinds=["select", "derive", "filter", "sort", "take", "aggregate", "group_agg", "group_take", "join", "window"])
+    sysbase += relgen.inherited_order_cases(SAFE, variants=2 if quick else 4)
     ctx.coverage_extra["systematic_base_programs"] = len(sysbase)
     for det, (rng, n) in zip((True, True, False), [(random.Random(6060), 0)] + list(zip(rngs, nbase))):
         kinds = ["select", "derive", "filter", "sort", "take", "aggregate", "group_agg", "group_take", "join", "append", "derive",
